@@ -1,5 +1,149 @@
-import Spec.Rev
-import Model.Rev.Heads
-/-! # C01 (theorems: work in progress) -/
+import Lemmas.Rev.PlanFacts
+/-!
+# C01 — the upgrade plan is exactly the missing ancestors, in dependency order
+
+Statements are about `Model.Rev.upgradeRevs` (mirror of `ScriptDirectory._upgrade_revs` →
+`RevisionMap.iterate_revisions` → `_collect_upgrade_revisions` + `_topological_sort`) on the
+revision map `m` obtained by `Model.Rev.load` (mirror of `RevisionMap._revision_map`).
+"Ancestor" is reachability along `m.allDownOf`: down-revisions and resolved dependencies.
+-/
 namespace C01
+open Model.Rev Spec.Rev Lemmas.Rev
+
+/-- `x` is one of `roots` or is required by one of them (down-revisions and dependencies) -/
+def Requires (m : LMap) (roots : List Id) (x : Id) : Prop := ∃ r ∈ roots, Reach m.allDownOf r x
+
+/-- `plan` brings a database whose version table holds `cur` up to `targets` -/
+structure UpgradePlan (m : LMap) (cur targets plan : List Id) : Prop where
+  /-- each revision at most once -/
+  nodup : plan.Nodup
+  /-- exactly what the targets require and the current heads do not already imply -/
+  exact : ∀ x, x ∈ plan ↔ Requires m targets x ∧ ¬ Requires m cur x
+  /-- every down-revision and dependency of a step is applied already or runs earlier -/
+  order : ∀ pre x post, plan = pre ++ x :: post →
+    ∀ p ∈ m.allDownOf x, Requires m cur p ∨ p ∈ pre
+
+theorem requires_iff_norm {m : LMap} (L : Loaded m) (roots : List Id) (x : Id) :
+    Requires m roots x ↔ ∃ r ∈ roots, Reach m.normDownOf r x := by
+  unfold Requires
+  constructor
+  · rintro ⟨r, hr, h⟩; exact ⟨r, hr, (reach_norm_iff_all L r x).mpr h⟩
+  · rintro ⟨r, hr, h⟩; exact ⟨r, hr, (reach_norm_iff_all L r x).mp h⟩
+
+/-- the set/sort core: for *any* resolved targets and any rows -/
+theorem plan_of_needs {m : LMap} (L : Loaded m) {rows targets needs cur : List Id}
+    (hn : upgradeNeeds m rows targets = .ok (needs, cur)) :
+    ∃ sorted, topoSort m needs targets = .ok sorted ∧ UpgradePlan m cur targets sorted.reverse := by
+  obtain ⟨_, hneeds⟩ := upgradeNeeds_spec hn
+  have hconv : Convex m.normDownOf (dedupe needs) := by
+    intro t c p ht hc hcp hpt
+    rw [mem_dedupe] at ht hc ⊢
+    obtain ⟨⟨T, hT, hTc⟩, _⟩ := (hneeds c).mp hc
+    obtain ⟨_, hnt⟩ := (hneeds t).mp ht
+    refine (hneeds p).mpr ⟨⟨T, hT, Reach.trans _ hTc hcp⟩, ?_⟩
+    rintro ⟨c0, hc0, hr⟩
+    exact hnt ⟨c0, hc0, Reach.trans _ hr hpt⟩
+  have hcov : ∀ t ∈ needs, ∃ hd ∈ targets, hd ∈ needs ∧ Reach m.normDownOf hd t := by
+    intro t ht
+    obtain ⟨⟨T, hT, hTt⟩, hnt⟩ := (hneeds t).mp ht
+    refine ⟨T, hT, (hneeds T).mpr ⟨⟨T, hT, Reach.refl _⟩, ?_⟩, hTt⟩
+    rintro ⟨c0, hc0, hr⟩
+    exact hnt ⟨c0, hc0, Reach.trans _ hr hTt⟩
+  obtain ⟨sorted, hs, hnd, hmem, hpw⟩ := topoSort_ok L needs targets hconv hcov
+  refine ⟨sorted, hs, ?_⟩
+  obtain ⟨rank, hrank⟩ := L.ranked
+  refine
+    { nodup := (List.reverse_perm sorted).symm.nodup hnd
+      exact := ?_
+      order := ?_ }
+  · intro x
+    rw [List.mem_reverse, hmem, hneeds, requires_iff_norm L, requires_iff_norm L]
+  · intro pre x post hplan p hp
+    have hx : x ∈ needs := by
+      rw [← hmem, ← List.mem_reverse, hplan]; simp
+    obtain ⟨⟨T, hT, hTx⟩, hnx⟩ := (hneeds x).mp hx
+    have hxp : Reach m.normDownOf x p := (reach_norm_iff_all L x p).mpr (Reach.single _ hp)
+    by_cases hcp : ∃ c ∈ cur, Reach m.normDownOf c p
+    · exact Or.inl ((requires_iff_norm L cur p).mpr hcp)
+    · right
+      have hpn : p ∈ needs := (hneeds p).mpr ⟨⟨T, hT, Reach.trans _ hTx hxp⟩, hcp⟩
+      have hpplan : p ∈ pre ++ x :: post := by
+        rw [← hplan, List.mem_reverse, hmem]; exact hpn
+      have hne : p ≠ x := by
+        intro e; subst e
+        have := hrank _ _ hp; omega
+      have hsorted : sorted = post.reverse ++ x :: pre.reverse := by
+        have := congrArg List.reverse hplan
+        simpa using this
+      rcases List.mem_append.mp hpplan with h | h
+      · exact h
+      · rcases List.mem_cons.mp h with h | h
+        · exact absurd h hne
+        · -- `p` would come before `x` in the sorted output although `x` is a proper descendant of `p`
+          rw [hsorted, List.pairwise_append] at hpw
+          have := hpw.2.2 p (List.mem_reverse.mpr h) x List.mem_cons_self
+          exact absurd ⟨hxp, Ne.symm hne⟩ this
+
+/-- **C01.** For every history that loads (unique revision ids, down-revisions that exist), every
+version-table content and every target string: whenever `upgrade` produces a plan, the target
+resolved to some revisions `targets`, the rows to `cur`, and the plan contains exactly the
+revisions the targets require and `cur` does not imply, each once, every revision after all of
+its down-revisions and dependencies. -/
+theorem plan {h : Hist} {o : LoadOpts} {m : LMap} (hl : load h o = .ok m)
+    (hu : (h.map (·.id)).Nodup) (hd : ∀ r ∈ h, ∀ d ∈ r.down, d ∈ h.map (·.id))
+    (rows : List Id) (target : String) (plan : List Id)
+    (hp : upgradeRevs m rows target = .ok plan) :
+    ∃ targets cur, parseUpgradeTarget m rows target = .ok targets ∧ resolveRows m rows = .ok cur ∧
+      UpgradePlan m cur targets plan := by
+  have L := loaded_of_load hl hu hd
+  unfold upgradeRevs collectUpgrade at hp
+  simp only [bind, Except.bind] at hp
+  split at hp
+  · simp at hp
+  · rename_i v hv
+    split at hv
+    · simp at hv
+    · rename_i targets htargets
+      split at hv
+      · simp at hv
+      · rename_i w hw
+        obtain ⟨needs, cur⟩ := w
+        simp only [pure, Except.pure, Except.ok.injEq] at hv
+        subst hv
+        obtain ⟨sorted, hs, hplan⟩ := plan_of_needs L hw
+        simp only [hs, pure, Except.pure, Except.ok.injEq] at hp
+        subst hp
+        exact ⟨targets, cur, htargets, (upgradeNeeds_spec hw).1, hplan⟩
+
+/-- **The sort never gives up**: once the set of needed revisions is computed, the plan exists
+(no `assert not todo`, no endless loop) -/
+theorem sort_total {h : Hist} {o : LoadOpts} {m : LMap} (hl : load h o = .ok m)
+    (hu : (h.map (·.id)).Nodup) (hd : ∀ r ∈ h, ∀ d ∈ r.down, d ∈ h.map (·.id))
+    {rows targets needs cur : List Id} (hn : upgradeNeeds m rows targets = .ok (needs, cur)) :
+    ∃ sorted, topoSort m needs targets = .ok sorted :=
+  let ⟨s, hs, _⟩ := plan_of_needs (loaded_of_load hl hu hd) hn
+  ⟨s, hs⟩
+
+/-- **Normalized edges lose nothing** (why Alembic may traverse `_normalized_down_revisions`) -/
+theorem norm_closure {h : Hist} {o : LoadOpts} {m : LMap} (hl : load h o = .ok m)
+    (hu : (h.map (·.id)).Nodup) (hd : ∀ r ∈ h, ∀ d ∈ r.down, d ∈ h.map (·.id)) (x y : Id) :
+    Reach m.normDownOf x y ↔ Reach m.allDownOf x y :=
+  reach_norm_iff_all (loaded_of_load hl hu hd) x y
+
+/-! ### non-vacuity (kernel-evaluated on a concrete branched history with a merge and a dependency) -/
+
+def demo : Hist :=
+  [⟨"a", [], [], []⟩, ⟨"b", ["a"], [], []⟩, ⟨"c", ["a"], [], []⟩, ⟨"d", ["b", "c"], ["a"], ["lbl"]⟩,
+   ⟨"e", [], ["c"], []⟩]
+
+def okIs (r : Except Err (List Id)) (l : List Id) : Bool :=
+  match r with | .ok x => x == l | .error _ => false
+
+/-- the hypotheses of `C01.plan` are satisfiable and the conclusion is about a non-empty plan -/
+example : okIs ((load demo).bind (fun m => upgradeRevs m ["b"] "heads")) ["c", "e", "d"] = true := by
+  decide +kernel
+example : okIs ((load demo).bind (fun m => upgradeRevs m [] "lbl@head")) ["a", "c", "b", "d"] = true := by
+  decide +kernel
+example : (demo.map (·.id)).Nodup ∧ ∀ r ∈ demo, ∀ d ∈ r.down, d ∈ demo.map (·.id) := by decide
+
 end C01
